@@ -184,7 +184,15 @@ def _arith_tabulate(ctx) -> None:
         bad, n = [], 0
         try:
             for label, args, (kind, want) in cases(op):
-                got = w.call(op, args)
+                try:
+                    got = w.call(op, args)
+                except AttributeError as e:
+                    if "'datetime.timedelta' object has no attribute" not in str(e):
+                        raise
+                    # the operand is a native timedelta standing for itself: the analysed code reads an attribute the native class does not have
+                    n += 1
+                    bad.append(f"{label}: AttributeError: {e}")
+                    continue
                 n += 1
                 try:
                     if kind == "len":
@@ -214,7 +222,7 @@ def _arith_tabulate(ctx) -> None:
         if not bad:
             # the operator is right on every operand combination (native timedelta operands included, so an attribute a native operand lacks
             # would have shown): how it is written is then not a property
-            ctx.established(("DUNDER.result", "RATIO", "SCALE", "ADDSUB", "ATTR-UNDER-GUARD"), f"Duration.{op}", "ARITH.tabulated")
+            ctx.established(("DUNDER.result", "RATIO", "SCALE", "ADDSUB", "ATTR-UNDER-GUARD", "NEG.components"), f"Duration.{op}", "ARITH.tabulated")
         ctx.ob("ARITH.tabulated", f"Duration.{op}", not bad,
                f"{n} operand combinations evaluated: " + (f"differs from the native operation: {bad[:3]}" if bad else
                "the result has the length of the native timedelta operation and is rebuilt through the operand's class"), m.loc(w.meths[op]))
